@@ -43,6 +43,9 @@ func regressions() [][]op {
 		{{K: opInbound2, M: 2}, {K: opRead, M: 0}, {K: opUnread, M: 0}, {K: opRead, M: 2}, {K: opRestart}},
 		// folder transitions with messages of several sizes and an attachment
 		{{K: opAdd, M: 0, V: variant{"A", false}, L: 3000, F: 700}, {K: opInbound, M: 0, L: 5000, F: 1200}, {K: opSent, M: 0, Rej: true}, {K: opRead, M: 0}, {K: opRestart}},
+		// a MID that was sent is queued again (corrected copy) and sent again: it ends up in sent/ only, with the new content
+		{a(0, "A", false), {K: opSent, M: 0}, {K: opAdd, M: 0, V: variant{"A", false}, L: 900, T: "corrected"}, {K: opSent, M: 0}},
+		{a(0, "A", false), {K: opSent, M: 0}, {K: opRestart}, {K: opAdd, M: 0, V: variant{"B", false}, L: 40, T: "again"}, {K: opPrepare}, {K: opSent, M: 0}, {K: opRestart}},
 		// overwrite in the outbox with another variant of the same MID
 		{a(1, "AB", true), a(1, "A", false), {K: opSent, M: 1}},
 	}
